@@ -10,6 +10,7 @@ value and `get_result` hands out a deep copy), the result returned for a point i
 history-free evaluation gives.
 -/
 import YadismModel.Model.Cache
+import YadismModel.Generated.Memo
 import Mathlib.Tactic.Ring
 import Mathlib.Tactic.Linarith
 import Mathlib.Data.List.Basic
@@ -259,5 +260,64 @@ example (op : String → Nat → Nat) :
         = h.map fun p => op p.1 p.2 :=
   fun h => Memo.run_eq_map _ (by intro i j hij; simp only [id] at hij; rw [hij]) h _ (Memo.inv_empty _)
 
+
+/-! ## The memo tables of the code base, regenerated from the source
+
+`harness/translate_memo.py` walks every module under `src/yadism` and lists each table that a
+function fills on a miss and reads on a hit (and each "computed" flag), with the names its key is
+built from (`keyVars`), the names the stored value can depend on (`deps`: what the miss branch
+reads, local names resolved to parameters and `self` attributes) and which of those are attributes
+assigned in `__init__` only (`immutable`: the same for every request to one object). -/
+
+section census
+open Yadism.Generated.Memo
+
+def _root_.Yadism.Generated.Memo.Site.covered (s : Site) : Bool :=
+  s.deps.all fun d => s.keyVars.contains d || s.immutable.contains d
+
+/-- **every memo table of the code base has a complete key**: whatever a stored value can depend on
+is part of the key or fixed for the lifetime of the object that owns the table -/
+theorem memo_keys_cover_deps : ∀ s ∈ sites, s.covered = true := by decide
+
+/-- the tables that exist, where, and under which key — a new table or a changed key shows up here -/
+theorem memo_census :
+    sites.map (fun s => (s.fn, s.table, s.key)) =
+      [("yadism.coefficient_functions.heavy.n3lo.__init__.interpolator", "interpolators", "grid_name"),
+       ("yadism.esf.esf.EvaluatedStructureFunction.compute_local", "self._computed", "()"),
+       ("yadism.esf.scale_variations.ScaleVariations.compute_raw", "self.operators", "(l, nf)"),
+       ("yadism.runner.Runner.get_sf", "self.observables", "obs_name.name"),
+       ("yadism.sf.StructureFunction.get_esf", "self.cache", "key")] := by decide
+
+/-- what coverage buys, for any site and any semantics of its value: requests are environments
+(values of the names the function can read); all requests to one object agree on its immutable
+attributes; the value depends on the `deps` only; the key is the tuple of the `keyVars`.  Then the
+table is transparent: every history of requests is answered exactly as if nothing were stored. -/
+theorem covered_site_is_transparent {Val V : Type} [DecidableEq Val] (s : Site) (hs : s.covered = true)
+    (fixed : String → Val)
+    (compute : (String → Val) → V)
+    (hdep : ∀ e e' : String → Val, (∀ n ∈ s.deps, e n = e' n) → compute e = compute e')
+    (hist : List {e : String → Val // ∀ n ∈ s.immutable, e n = fixed n}) :
+    (Memo.mk (I := {e : String → Val // ∀ n ∈ s.immutable, e n = fixed n}) (K := List Val) (V := V)
+        (fun e => s.keyVars.map e.1) (fun e => compute e.1)).run (fun _ => none) hist
+      = hist.map fun e => compute e.1 := by
+  apply Memo.run_eq_map _ _ hist _ (Memo.inv_empty _)
+  intro i j hij
+  apply hdep
+  intro n hn
+  have hc : s.keyVars.contains n || s.immutable.contains n = true := by
+    have := List.all_eq_true.mp hs n hn
+    simpa using this
+  rcases Bool.or_eq_true _ _ |>.mp hc with h | h
+  · have hmem : n ∈ s.keyVars := by simpa using h
+    exact (List.map_inj_left.mp hij) n hmem
+  · have hmem : n ∈ s.immutable := by simpa using h
+    rw [i.2 n hmem, j.2 n hmem]
+
+/-- … and the check is not vacuous: a table keyed without something its value reads is rejected
+(the shape of the seeded changes C05-2, C06-3, C14-2: an operator table keyed by the label alone) -/
+example : Site.covered ⟨"compute_raw", "self.operators", "l", ["self.raw_labels"],
+    ["nf", "self.interpolator", "self.raw_labels"], ["self.interpolator", "self.raw_labels"]⟩ = false := by decide
+
+end census
 
 end Yadism.C14
